@@ -36,7 +36,7 @@ def strategy(tier):
         st.tuples(st.just("process_iter"), st.integers(0, 8)),
         st.tuples(st.just("str"), i),
         st.tuples(st.just("query"), i, st.sampled_from(["name", "as_dict", "ppid", "parent", "children"])),
-    ]
+    ] + history.extra_ops()
     return st.fixed_dictionaries(dict(
         setup=st.integers(0, 63),
         ops=st.lists(st.one_of(*ops), min_size=4, max_size=nops),
@@ -170,7 +170,13 @@ def run_case(case):
                         getattr(o.proc, op[2])()
                     except psutil.Error:
                         pass
+            else:
+                w.apply_extra(op)
             check_all(op)
+        w.close_blocks()
+    for e in w.events:
+        if e[0] in ("oneshot-enter", "wait-returned"):
+            labels.add("history-with-" + e[0])
 
     pids = [o.pid for o in w.objs]
     if len(pids) != len(set(pids)):
